@@ -99,6 +99,18 @@ def plan(prop, tier, seed, avoid):
         rule = (f"histories generated by profile 'churn' (see C01 for the scheme) plus dump/load round trips of churn worlds, 40% of them with the "
                 f"dump used as a checkpoint (source world mutated between dump and load); {spec['rule_extra']}")
         return dict(jobs=jobs, rule=rule, assumptions=ASSUME_ENGINE)
+    if prop == "C16":
+        # Reset of a world whose entity pool was installed by LoadEntities (the dump/load worker resets every loaded world at the end)
+        spec = ENGINE[prop]
+        jobs = engine_jobs(prop, tier, seed, avoid)
+        cases = 800 if tier == "quick" else 30000
+        for sh in range(8):
+            jobs.append(dict(cmd="serworker", variant="plain", label=f"serworker/shard{sh}", env={}, watchdog=3000,
+                             args=["-seed", str(seed + 37), "-shard", str(sh), "-nshards", "8", "-cases", str(cases), "-pairs", "100"]))
+        rule = (f"histories generated by profile '{spec['profile']}' (see C01 for the scheme) plus dump/load round trips of churn worlds at whose "
+                f"end the loaded worlds are reset and used again (empty, unlocked, zero entity not alive, fresh non-reserved handles, relations "
+                f"and target death work); {spec['rule_extra']}")
+        return dict(jobs=jobs, rule=rule, assumptions=ASSUME_ENGINE)
     if prop == "C10":
         # the rejection of dead handles must also hold in a world whose entity pool was restored by LoadEntities
         spec = ENGINE[prop]
@@ -154,6 +166,22 @@ def plan(prop, tier, seed, avoid):
                 f"of the rendered op list; job group 2 ('scale:'): profile 'scale' - 400-800 ops, up to 3000 alive entities in few tables "
                 f"(batches of up to 900: several capacity doublings), relation targets drawn from a pool of 400 entities (hundreds of relation "
                 f"tables, long free lists), state sweep every 10th op{extra}; {spec['rule_extra']}")
+        return dict(jobs=jobs, rule=rule, assumptions=ASSUME_ENGINE)
+    if prop == "C07":
+        # second job group: the lock under concurrent queries (the documented parallel read-only use): the race worker of C13
+        # at a smaller volume - shared lock bits, unbalanced unlocks and a world left locked show there, as do unsynchronised
+        # accesses to the lock itself
+        spec = ENGINE[prop]
+        jobs = engine_jobs(prop, tier, seed, avoid)
+        cases = 96 if tier == "quick" else 2400
+        for sh in range(8):
+            args = ["-seed", str(seed + 31), "-shard", str(sh), "-nshards", "8", "-cases", str(cases), "-reps", "4"]
+            jobs.append(dict(cmd="raceworker", variant="race", args=args, label=f"raceworker/shard{sh}", env={}, race=True, watchdog=3000))
+        rule = (f"histories generated by profile '{spec['profile']}' from splitmix64(VERIF_SEED, case index): world configuration "
+                f"(capacities, component-ID offset, registration order) plus 150-600 ops drawn from the model state; distinct = distinct SHA-256 "
+                f"of the rendered op list; job group 2 ('raceworker'): frozen worlds queried by 2-64 goroutines released by one barrier, "
+                f"typed and ID-based filters, built with -race (see C13): lock state after every phase, panics of Close/Next, race reports; "
+                f"{spec['rule_extra']}")
         return dict(jobs=jobs, rule=rule, assumptions=ASSUME_ENGINE)
     if prop == "C06":
         # second job group: every case starts with the scripted method matrix of one typed tuple
